@@ -198,6 +198,7 @@ struct Ctx {
   std::string replay_dir = ".";
   std::string out_path, hashes_path, target = "?";
   std::vector<Sub> subs;
+  int shard = 0;  // enumerated sub-checks run in shard 0 only
   std::map<std::string, double> metrics;  // named maxima (calibration numbers), merged by max in the driver
   // crash bookkeeping
   char cur_sub[128] = {0};
@@ -323,6 +324,7 @@ inline void add_enum_sub(const std::string &name,
   s.cases = 0;
   s.replay = std::move(replay);
   s.run = [body](Sub &self, uint64_t, double scale, int) {
+    if (ctx().shard != 0) return;
     auto t0 = std::chrono::steady_clock::now();
     strncpy(ctx().cur_sub, self.name.c_str(), sizeof ctx().cur_sub - 1);
     body(self, scale);
@@ -424,6 +426,7 @@ inline int main_impl(int argc, char **argv, const char *property, bool exhaustiv
     else if (a == "--replay") replay_file = need("--replay");
     else if (a == "--only") only = need("--only");
     else if (a == "--prefix") prefix = need("--prefix");
+    else if (a == "--shard") c.shard = std::stoi(need("--shard"));
     else if (a == "--property") c.property = need("--property");
     else if (a == "--list") {
       for (auto &s : c.subs) printf("%s %d\n", s.name.c_str(), s.cases);
